@@ -79,6 +79,8 @@ std::vector<Entry> catalogue() {
     add("MultiTag::positions/unknown-id", [](World &w) { MultiTag t; NEED(w.g.anyMTag(w.b0, t)); std::string id = uuid_like(w.g.r); return Call([t, id]() mutable { t.positions(id); }); });
     add("MultiTag::extents/unknown-id", [](World &w) { MultiTag t; NEED(w.g.anyMTag(w.b0, t)); std::string id = uuid_like(w.g.r); return Call([t, id]() mutable { t.extents(id); }); });
     add("MultiTag::extents/mismatching-shape", [](World &w) { MultiTag t; NEED(w.g.anyMTag(w.b0, t)); DataArray p = t.positions(); NEED(p); NDSize e = p.dataExtent(); e[0] += 1; DataArray x = w.b0.createDataArray("mismatch-" + str(w.g.serial++), "t", DataType::Double, e); return Call([t, x]() mutable { t.extents(x); }); });
+    add("MultiTag::positions/shape-mismatching-the-extents", [](World &w) { MultiTag t; NEED(w.g.anyMTag(w.b0, t)); DataArray ex = t.extents(); NEED(ex); NDSize e = ex.dataExtent(); e[0] += 2; DataArray x = w.b0.createDataArray("pmismatch-" + str(w.g.serial++), "t", DataType::Double, e); int how = (int)w.g.r.u(3); return Call([t, x, how]() mutable { if (how == 0) t.positions(x); else if (how == 1) t.positions(x.name()); else t.positions(x.id()); }); });
+    add("MultiTag::positions/unknown-id", [](World &w) { MultiTag t; NEED(w.g.anyMTag(w.b0, t)); std::string id = uuid_like(w.g.r); return Call([t, id]() mutable { t.positions(id); }); });
     add("MultiTag::extents/array-of-other-file", [](World &w) { MultiTag t; NEED(w.g.anyMTag(w.b0, t)); DataArray a = w.ob.getDataArray(0); return Call([t, a]() mutable { t.extents(a); }); });
     add("Group::addDataArray/array-of-other-block", [](World &w) { Group gr; NEED(w.g.anyGroup(w.b0, gr)); NEED(w.b1.dataArrayCount()); DataArray a = w.b1.getDataArray(0); NEED(!w.b0.hasDataArray(a.name())); return Call([gr, a]() mutable { gr.addDataArray(a); }); });
     add("Group::addTag/unknown-id", [](World &w) { Group gr; NEED(w.g.anyGroup(w.b0, gr)); std::string id = uuid_like(w.g.r); return Call([gr, id]() mutable { gr.addTag(id); }); });
@@ -124,6 +126,10 @@ std::vector<Entry> catalogue() {
     add("DataArray::appendDataFrameDimension/column-out-of-range", [](World &w) { DataArray a; DataFrame df; NEED(w.g.anyArray(w.b0, a) && w.g.anyFrame(w.b0, df)); unsigned nc = (unsigned)df.columns().size(); return Call([a, df, nc]() mutable { a.appendDataFrameDimension(df, nc + 1); }); });
     add("DataArray::appendDataFrameDimension/unknown-column-name", [](World &w) { DataArray a; DataFrame df; NEED(w.g.anyArray(w.b0, a) && w.g.anyFrame(w.b0, df)); return Call([a, df]() mutable { a.appendDataFrameDimension(df, "no-such-column"); }); });
     add("SampledDimension::samplingInterval/non-positive", [](World &w) { Block b = w.b0; for (auto &a : b.dataArrays()) for (auto &d : a.dimensions()) if (d.dimensionType() == DimensionType::Sample) { SampledDimension s = d.asSampledDimension(); return Call([s]() mutable { s.samplingInterval(-2.0); }); } return Call(); });
+    // units that are SI only after blanks are removed / "mu" is rewritten, and blank-only units: whoever rejects them must do so before creating anything
+    add("DataArray::appendSampledDimension/unit-SI-only-after-sanitising", [](World &w) { DataArray a; NEED(w.g.anyArray(w.b0, a)); static const char *us[] = {" ms", "m V", "kHz ", "mus", " ", "m s", "mV / s"}; std::string u = w.g.r.pick(us); return Call([a, u]() mutable { a.appendSampledDimension(1.0, "lbl", u); }); });
+    add("DataArray::appendRangeDimension/unit-SI-only-after-sanitising", [](World &w) { DataArray a; NEED(w.g.anyArray(w.b0, a)); static const char *us[] = {" ms", "m V", "kHz ", "mus", " ", "m s", "mV / s"}; std::string u = w.g.r.pick(us); return Call([a, u]() mutable { a.appendRangeDimension({1.0, 2.0}, "lbl", u); }); });
+    add("Dimension::unit/unit-SI-only-after-sanitising", [](World &w) { Block b = w.b0; static const char *us[] = {" ms", "m V", "kHz ", "mus", " ", "m s"}; std::string u = w.g.r.pick(us); for (auto &a : b.dataArrays()) for (auto &d : a.dimensions()) { if (d.dimensionType() == DimensionType::Sample) { SampledDimension s2 = d.asSampledDimension(); return Call([s2, u]() mutable { s2.unit(u); }); } if (d.dimensionType() == DimensionType::Range) { RangeDimension s2 = d.asRangeDimension(); return Call([s2, u]() mutable { s2.unit(u); }); } } return Call(); });
     add("SampledDimension::unit/non-SI", [](World &w) { Block b = w.b0; for (auto &a : b.dataArrays()) for (auto &d : a.dimensions()) if (d.dimensionType() == DimensionType::Sample) { SampledDimension s = d.asSampledDimension(); return Call([s]() mutable { s.unit("cubits"); }); } return Call(); });
     add("RangeDimension::ticks/unsorted", [](World &w) { Block b = w.b0; for (auto &a : b.dataArrays()) for (auto &d : a.dimensions()) if (d.dimensionType() == DimensionType::Range) { RangeDimension s = d.asRangeDimension(); return Call([s]() mutable { s.ticks({5.0, 4.0, 6.0}); }); } return Call(); });
     add("RangeDimension::unit/non-SI", [](World &w) { Block b = w.b0; for (auto &a : b.dataArrays()) for (auto &d : a.dimensions()) if (d.dimensionType() == DimensionType::Range) { RangeDimension s = d.asRangeDimension(); return Call([s]() mutable { s.unit("stone"); }); } return Call(); });
